@@ -17,6 +17,11 @@ for f in kf["findings"]:
         print("REMOVED (passes now):", f["property"], f["signature"])
     elif m and m.group(1).strip() != f["signature"]:
         print("CHANGED signature:", f["property"], f["signature"], "->", m.group(1).strip())
+        if "--update-signatures" in sys.argv:
+            f["signature"] = m.group(1).strip()
+            rp = os.path.join(ROOT, f["replay"])
+            doc = json.load(open(rp)); doc["signature"] = f["signature"]
+            json.dump(doc, open(rp, "w"), indent=1, ensure_ascii=False)
         keep.append(f)
     else:
         keep.append(f)
